@@ -161,6 +161,9 @@ structure St where
   pathFails : List Nat := []
   /-- a chain/user trigger left StateDefault earlier in this case -/
   broadcastStep : Bool := false
+  /-- trigger ("user"/"chain") and height of that broadcast step -/
+  bcastTrig : String := ""
+  bcastHeight : Nat := 0
   -- counters
   lines : Nat := 0
   cases : Nat := 0
@@ -195,6 +198,9 @@ structure St where
   f2Hits : Nat := 0
   orderDependentHits : Nat := 0
   preBroadcastFailWithOutput : Nat := 0
+  regressionMissing : Nat := 0
+  injectedMissingResolution : Nat := 0
+  danglingMustGoChecks : Nat := 0
   breachDuplicateFails : Nat := 0
   unitMonitorChecks : Nat := 0
   watcherCases : Nat := 0
@@ -294,13 +300,62 @@ def unitMonitorConstruct (s : St) (k : SetKey) (nonChain : Bool) (implStr : Stri
           s ← monitor s "dangling-failed-once" s!"unit key={keyName k} dangling idx={h.index} is {count failed h.index} times in FailDust/FailDangling"
   return s
 
-/-- is a force close due at `height` because of an HTLC on our commitment?  `none` = only HTLCs in
-    the wrapped domain (`RefundTimeout < delta`) would require it (skipped, see notes). -/
+/-- all copies of offered HTLC `i` on the peer's two commitments. -/
+def remoteCopies (s : St) (i : Nat) : List Htlc :=
+  ((Mon.outs s.rawR) ++ (Mon.outs s.rawP)).filter (·.index == i)
+
+/-- offered HTLCs that are on a commitment of the peer but not on ours (one entry per index). -/
+def danglingIdx (s : St) : List Nat :=
+  (((Mon.outs s.rawR) ++ (Mon.outs s.rawP)).map (·.index)).eraseDups.filter fun i =>
+    !(Mon.outs s.rawL).any (·.index == i)
+
+/-- offered HTLC `h` is due (unwrapped domain) and we are obliged to act on it. -/
+def dueOut (s : St) (height : Nat) (h : Htlc) : Bool :=
+  h.refundTimeout ≥ s.dout && height + s.dout ≥ h.refundTimeout &&
+    (s.fwd.contains h.index || s.grace)
+
+/-- is a force close due at `height`: because of an HTLC on our commitment (offered, or received
+    with known preimage), or because of an offered HTLC that is only on the peer's commitment(s),
+    whose preimage we do not know (every copy due, so the answer does not depend on which copy the
+    implementation looks at).  HTLCs in the wrapped domain (`RefundTimeout < delta`) never
+    oblige (see notes). -/
 def mustGo (s : St) (height : Nat) : Bool :=
-  (Mon.outs s.rawL).any (fun h => h.refundTimeout ≥ s.dout && height + s.dout ≥ h.refundTimeout &&
-      (s.fwd.contains h.index || s.grace)) ||
+  (Mon.outs s.rawL).any (dueOut s height) ||
   (Mon.ins s.rawL).any (fun h => h.refundTimeout ≥ s.din && height + s.din ≥ h.refundTimeout &&
-      s.pre.contains h.hash)
+      s.pre.contains h.hash) ||
+  (danglingIdx s).any (fun i => (remoteCopies s i).all fun h =>
+      dueOut s height h && !s.pre.contains h.hash)
+
+def mustGoDanglingOnly (s : St) (height : Nat) : Bool :=
+  !((Mon.outs s.rawL).any (dueOut s height) ||
+    (Mon.ins s.rawL).any (fun h => h.refundTimeout ≥ s.din && height + s.din ≥ h.refundTimeout &&
+      s.pre.contains h.hash)) && mustGo s height
+
+/-- the implementation's `shouldGoOnChain` re-stated (uint32 cut-off), used only to decide which
+    HTLCs the broadcast step was bound to fail (attribution of finding F2). -/
+def codeDue (s : St) (height : Nat) (h : Htlc) (delta : Nat) : Bool :=
+  let cutoff := (h.refundTimeout + 4294967296 - delta % 4294967296) % 4294967296
+  height ≥ cutoff && (h.incoming || s.fwd.contains h.index || s.grace)
+
+/-- was offered HTLC `i` certainly in the `FailDust` set the `StateDefault` step acted on when we
+    broadcast (trigger/height recorded in the state)?  Then a missing fail-back is NOT finding F2. -/
+def expectedAtBroadcast (s : St) (i : Nat) : Bool :=
+  if !s.broadcastStep then false else
+  let h0 := s.bcastHeight
+  match (Mon.outs s.rawL).find? (·.index == i) with
+  | some l =>
+    let localDue := (Mon.outs s.rawL).any (fun h => codeDue s h0 h s.dout) ||
+      (Mon.ins s.rawL).any (fun h => s.pre.contains h.hash && codeDue s h0 h s.din)
+    l.outputIndex < 0 && (s.bcastTrig == "user" || localDue)
+  | none =>
+    let cs := remoteCopies s i
+    !cs.isEmpty && cs.all fun h => h.outputIndex < 0 && codeDue s h0 h s.dout && !s.pre.contains h.hash
+
+/-- why a dust / dangling-dust HTLC was legitimately not failed when we broadcast. -/
+def f2Kind (s : St) (i : Nat) : String :=
+  match (Mon.outs s.rawL).find? (·.index == i) with
+  | some l => if l.outputIndex < 0 then "chain-dangling-only" else "dust-on-theirs"
+  | none => "dangling-dust"
 
 /-- is there any HTLC that could justify going on chain at `height`?  (over-approximation) -/
 def mayGo (s : St) (height : Nat) : Bool :=
@@ -341,7 +396,10 @@ def confMonitor (s : St) (k : SetKey) (preState : String) (opFails : List Nat)
       if count opFails h.index != 0 then
         s ← monitor s "failback-with-output" s!"conf={kname} pre={preState} outgoing idx={h.index} has output {h.outputIndex} on the confirmed commitment and was failed upstream at confirmation"
       if count s.pathFails h.index != 0 then
+        -- clause 4, literal reading: the HTLC was failed upstream (before the confirmation)
+        -- and has an output on the commitment that confirmed.
         s := { s with preBroadcastFailWithOutput := s.preBroadcastFailWithOutput + 1 }
+        s ← monitor s "failback-before-confirmation-with-output" s!"conf={kname} pre={preState} idx={h.index} output={h.outputIndex} bcast={s.bcastTrig}@{s.bcastHeight}: failed upstream when we broadcast (dust on our commitment) but it has an output on the commitment that confirmed"
       let hasRes := resOut.contains h.outputIndex
       let n := (res.filter fun e => (e.1 == "TO" || e.1 == "OC") && e.2 == h.index).length
       s := { s with resolverChecks := s.resolverChecks + 1 }
@@ -349,15 +407,21 @@ def confMonitor (s : St) (k : SetKey) (preState : String) (opFails : List Nat)
         s ← monitor s "exactly-one-resolver" s!"conf={kname} pre={preState} outgoing idx={h.index} output={h.outputIndex} has {n} resolvers"
       if !hasRes && n != 0 then
         s ← monitor s "resolver-without-resolution" s!"conf={kname} outgoing idx={h.index} output={h.outputIndex} has {n} resolvers but no resolution"
+      if !hasRes && n == 0 then
+        if s.kind == "watcher" then
+          s ← monitor s "resolution-missing-no-resolver" s!"conf={kname} outgoing idx={h.index} output={h.outputIndex}: the close summary has no resolution for the outpoint, prepContractResolutions skipped it silently: no resolver"
+        else
+          s := { s with injectedMissingResolution := s.injectedMissingResolution + 1 }
     else
       s := { s with failbackChecks := s.failbackChecks + 1 }
       let c := count allFails h.index
       if c == 0 then
-        if afterBroadcast then
+        if afterBroadcast && !expectedAtBroadcast s h.index then
           s := { s with f2Hits := s.f2Hits + 1 }
-          s ← monitor s "failback-missing-dust-after-broadcast" s!"conf={kname} pre={preState} kind=dust-on-confirmed idx={h.index}: never failed upstream and no resolver"
+          s ← monitor s "failback-missing-dust-after-broadcast" s!"conf={kname} pre={preState} kind={f2Kind s h.index} idx={h.index} bcast={s.bcastTrig}@{s.bcastHeight} on=confirmed: never failed upstream and no resolver"
         else
-          s ← monitor s "failback-missing" s!"conf={kname} pre={preState} kind=dust-on-confirmed idx={h.index}: never failed upstream"
+          if afterBroadcast then s := { s with regressionMissing := s.regressionMissing + 1 }
+          s ← monitor s "failback-missing" s!"conf={kname} pre={preState} kind=dust-on-confirmed idx={h.index} bcast={s.bcastTrig}@{s.bcastHeight}: never failed upstream"
       else if c > 1 then
         s ← monitor s "failback-duplicate" s!"conf={kname} pre={preState} kind=dust-on-confirmed idx={h.index}: failed upstream {c} times"
       if (res.any fun e => (e.1 == "TO" || e.1 == "OC") && e.2 == h.index) then
@@ -372,6 +436,11 @@ def confMonitor (s : St) (k : SetKey) (preState : String) (opFails : List Nat)
         s ← monitor s "exactly-one-resolver" s!"conf={kname} pre={preState} incoming idx={h.index} output={h.outputIndex} has {n} resolvers"
       if !hasRes && n != 0 then
         s ← monitor s "resolver-without-resolution" s!"conf={kname} incoming idx={h.index} has {n} resolvers but no resolution"
+      if !hasRes && n == 0 then
+        if s.kind == "watcher" then
+          s ← monitor s "resolution-missing-no-resolver" s!"conf={kname} incoming idx={h.index} output={h.outputIndex}: the close summary has no resolution for the outpoint, prepContractResolutions skipped it silently: no resolver"
+        else
+          s := { s with injectedMissingResolution := s.injectedMissingResolution + 1 }
       if count finals h.index != 0 then
         s ← monitor s "incoming-dust-final" s!"conf={kname} incoming idx={h.index} has an output but was marked final-failed"
     else
@@ -403,11 +472,12 @@ def confMonitor (s : St) (k : SetKey) (preState : String) (opFails : List Nat)
           s ← monitor s "failback-remote-copies-disagree" s!"conf={kname} pre={preState} kind={if c == 0 then "missing" else "duplicate"} idx={h.index}: failed upstream {c} times"
         else if c == 0 then
           let dustSomewhere := (otherRaw s k).any fun x => !x.incoming && x.index == h.index && x.outputIndex < 0
-          if afterBroadcast && dustSomewhere then
+          if afterBroadcast && dustSomewhere && !expectedAtBroadcast s h.index then
             s := { s with f2Hits := s.f2Hits + 1 }
-            s ← monitor s "failback-missing-dust-after-broadcast" s!"conf={kname} pre={preState} kind=dangling-dust idx={h.index}: never failed upstream and no resolver"
+            s ← monitor s "failback-missing-dust-after-broadcast" s!"conf={kname} pre={preState} kind={f2Kind s h.index} idx={h.index} bcast={s.bcastTrig}@{s.bcastHeight} on=other: never failed upstream and no resolver"
           else
-            s ← monitor s "failback-missing" s!"conf={kname} pre={preState} kind=dangling idx={h.index}: never failed upstream"
+            if afterBroadcast then s := { s with regressionMissing := s.regressionMissing + 1 }
+            s ← monitor s "failback-missing" s!"conf={kname} pre={preState} kind=dangling idx={h.index} bcast={s.bcastTrig}@{s.bcastHeight}: never failed upstream"
         else if c > 1 then
           s ← monitor s "failback-duplicate" s!"conf={kname} pre={preState} kind=dangling idx={h.index}: failed upstream {c} times"
   -- nothing else may be failed
@@ -497,7 +567,7 @@ def step (s : St) (line : String) : IO St := do
                       dumpL := [], dumpR := [], dumpP := [], spent := none,
                       watcherCases := s.watcherCases + (if kind == "watcher" then 1 else 0),
                       arb := { fcErr := fc }, lastH := 0, implState := "D", pathFails := [],
-                      broadcastStep := false, cases := s.cases + 1,
+                      broadcastStep := false, bcastTrig := "", bcastHeight := 0, cases := s.cases + 1,
                       unitCases := s.unitCases + (if kind == "unit" then 1 else 0),
                       arbCases := s.arbCases + (if kind == "arb" || kind == "watcher" then 1 else 0) }
     return s
@@ -604,7 +674,7 @@ def step (s : St) (line : String) : IO St := do
       if mustGo s height then
         s := { s with mustGoChecks := s.mustGoChecks + 1 }
         if impl == "-" then
-          s ← monitor s "onchain-late" s!"unit checkLocalChainActions(height={height}, chainTrigger) is empty although an HTLC on the local commitment is within its broadcast delta"
+          s ← monitor s "onchain-late" s!"unit checkLocalChainActions(height={height}, chainTrigger) is empty although an offered HTLC (ours or only on the peer's commitments, preimage unknown) or a claimable received HTLC is within its broadcast delta"
       else if wrapOnly s height then
         s := { s with wrapSkipped := s.wrapSkipped + 1 }
       if !mayGo s height then
@@ -683,9 +753,11 @@ def step (s : St) (line : String) : IO St := do
           s ← monitor s "user-force-close" s!"user request in StateDefault: ForceCloseChan called {fc} times"
       else
         if mustGo s.truth height then
-          s := { s with mustGoChecks := s.mustGoChecks + 1 }
+          s := { s with mustGoChecks := s.mustGoChecks + 1,
+                        danglingMustGoChecks := s.danglingMustGoChecks +
+                          (if mustGoDanglingOnly s.truth height then 1 else 0) }
           if fc == 0 then
-            s ← monitor s "onchain-late" s!"height={height}: an HTLC on the local commitment is within its broadcast delta but ForceCloseChan was not called"
+            s ← monitor s "onchain-late" s!"height={height}: an offered HTLC (ours or only on the peer's commitments, preimage unknown) or a claimable received HTLC is within its broadcast delta but ForceCloseChan was not called"
         else if wrapOnly s.truth height then
           s := { s with wrapSkipped := s.wrapSkipped + 1 }
         if !mayGo s.truth height then
@@ -721,7 +793,10 @@ def step (s : St) (line : String) : IO St := do
             s := { s with breachDuplicateFails := s.breachDuplicateFails + 1 }
     | some (.coop .., none) => s := { s with coops := s.coops + 1 }
     | _ => pure ()
-    let bs := s.broadcastStep || (preState == "D" && (implSt == "BC" || implSt == "CB"))
+    let nowB := !s.broadcastStep && preState == "D" && ev.isNone && (implSt == "BC" || implSt == "CB")
+    let bs := s.broadcastStep || nowB
+    if nowB then
+      s := { s with bcastTrig := (if opName == "user" then "user" else "chain"), bcastHeight := height }
     return { s with implState := implSt, pathFails := s.pathFails ++ opFails, broadcastStep := bs,
                     lastH := if opName == "user" then s.lastH else height }
   | [] => return s
@@ -764,6 +839,9 @@ def main : IO Unit := do
   IO.println s!"STAT remote_copies_disagree_hits={s.orderDependentHits}"
   IO.println s!"STAT prebroadcast_dust_fail_with_output_on_confirmed={s.preBroadcastFailWithOutput}"
   IO.println s!"STAT breach_duplicate_fails={s.breachDuplicateFails}"
+  IO.println s!"STAT missing_but_expected_at_broadcast={s.regressionMissing}"
+  IO.println s!"STAT injected_missing_resolution_no_resolver={s.injectedMissingResolution}"
+  IO.println s!"STAT must_go_dangling_only_checks={s.danglingMustGoChecks}"
   IO.println s!"STAT watcher_cases={s.watcherCases}"
   IO.println s!"STAT watcher_spent_local={s.watcherSpentLocal}"
   IO.println s!"STAT watcher_spent_remote={s.watcherSpentRemote}"
